@@ -73,7 +73,7 @@ func (auth *Authenticator) AuthenticateCookie(rq *http.Request, response http.Re
 	if err != nil {
 		return nil, err
 	}
-	if user == nil || session.SessionUUID != user.GetSessionUUID() {
+	if user == nil || user.Disabled() || session.SessionUUID != user.GetSessionUUID() {
 		base.InfofCtx(auth.LogCtx, base.KeyAuth, "Session no longer valid for user %s", base.UD(session.Username))
 		return nil, base.HTTPErrorf(http.StatusUnauthorized, "Session no longer valid for user")
 	}
@@ -89,7 +89,7 @@ func (auth *Authenticator) AuthenticateCookie(rq *http.Request, response http.Re
 // a one time sesssion. If it is a one time session, delete the session.
 func (auth *Authenticator) AuthenticateOneTimeSession(ctx context.Context, sessionID string) (User, error) {
 	session, user, err := auth.GetSession(sessionID)
-	if err != nil {
+	if err != nil || user.Disabled() {
 		return nil, base.HTTPErrorf(http.StatusUnauthorized, "Session Invalid")
 	}
 
